@@ -10,3 +10,6 @@ import MakoModel.Props.C09
 #print axioms MakoModel.C09.history_contained
 #print axioms MakoModel.C09.has_agrees_get
 #print axioms MakoModel.C09.has_true_contained
+#print axioms MakoModel.C09.uri_check_unconditional_and_first
+#print axioms MakoModel.C09.has_template_is_get_template
+#print axioms MakoModel.C09.lookup_returns_only_loaded_templates
